@@ -447,7 +447,17 @@ def execute(spec, text, payload, world, operation_name=None, root_value=None, op
 
 
 class Boom(Exception):
-    pass
+    """an unexpected resolver exception (not the library's ResolverError)"""
+
+
+# unexpected exceptions in the wild are mostly builtin ones: the library must not mistake them for its own control flow
+BOOM_KINDS = [Boom] + [type("Boom" + b.__name__, (Boom, b), {}) for b in (IndexError, KeyError, AttributeError, TypeError, ValueError, LookupError)]
+
+
+def boom_for(path):
+    """the exception a resolver raises at a boom path: its class is a function of the path"""
+    import zlib
+    return BOOM_KINDS[zlib.crc32(repr(tuple(path)).encode()) % len(BOOM_KINDS)](tuple(path))
 
 
 def serialize(spec, n, val):
